@@ -534,6 +534,57 @@ fn e1_two_registrants(ctx: &Ctx, res: &mut PartResult, pb: usize) {
     vsched::explore(&scn, &Cfg { max_bound: pb, horizon: 20000 }, ctx, res);
 }
 
+/// two threads update the same gauge and the same counter through their own handles (equal keys registered twice):
+/// the final snapshot shows every update applied, and a snapshot taken meanwhile shows a value some prefix explains
+fn e1_two_updaters(ctx: &Ctx, res: &mut PartResult, pb: usize) {
+    let scn = Scenario {
+        name: "t0 gauge.increment(1), counter.increment(1), gauge.increment(2) || t1 gauge.increment(4), counter.increment(2), gauge.decrement(8) || snapshotter (1 snapshot), then a final snapshot".into(),
+        setup: Box::new(|| {
+            let rec = DebuggingRecorder::new();
+            let snap = rec.snapshotter();
+            S { rec, snap, log: Log::new() }
+        }),
+        bodies: vec![
+            body(|s: &S| {
+                let g = s.rec.register_gauge(&mk_key(1), &META);
+                g.increment(1.0);
+                s.rec.register_counter(&mk_key(1), &META).increment(1);
+                g.increment(2.0);
+            }),
+            body(|s: &S| {
+                let g = s.rec.register_gauge(&mk_key(2), &META);
+                g.increment(4.0);
+                s.rec.register_counter(&mk_key(2), &META).increment(2);
+                g.decrement(8.0);
+            }),
+            body(|s: &S| {
+                s.log.push(real_snapshot(&s.snap));
+            }),
+        ],
+        check: Box::new(|s, _| {
+            s.log.push(real_snapshot(&s.snap));
+            let snaps = s.log.get();
+            let val = |snap: &Vec<String>, k: &str| -> Option<String> { snap.iter().find(|l| l.starts_with(k)).map(|l| l.split('|').nth(4).unwrap_or("").to_string()) };
+            let last = snaps.last().unwrap();
+            let (g, c) = (val(last, "G|"), val(last, "C|"));
+            let want_g = format!("G{:x}", (-1.0f64).to_bits());
+            if g.as_deref() != Some(want_g.as_str()) || c.as_deref() != Some("C3") {
+                return fail("snapshot-value-wrong", format!("two threads updated one gauge (+1, +2 | +4, -8) and one counter (+1 | +2) through their own handles; the final snapshot shows gauge {:?} (expected -1.0 = {}) and counter {:?} (expected C3)", g, want_g, c));
+            }
+            // the snapshot taken meanwhile: the gauge holds the sum of a prefix of each thread's updates
+            if let Some(gm) = val(&snaps[0], "G|") {
+                let ok = [0.0f64, 1.0, 3.0].iter().any(|a| [0.0f64, 4.0, -4.0].iter().any(|b| gm == format!("G{:x}", (a + b).to_bits())));
+                if !ok {
+                    return fail("snapshot-value-wrong", format!("a snapshot taken while two threads updated one gauge shows {}, which no prefix of their updates (+1, +2 | +4, -8) adds up to", gm));
+                }
+            }
+            Verdict::Ok(format!("{:?}", snaps[0]))
+        }),
+        termination_promised: true,
+    };
+    vsched::explore(&scn, &Cfg { max_bound: pb, horizon: 20000 }, ctx, res);
+}
+
 /// two snapshotting threads at once: each recorded value still appears in exactly one snapshot
 fn e1_two_snapshotters(ctx: &Ctx, res: &mut PartResult, pb: usize) {
     let scn = Scenario {
@@ -643,6 +694,7 @@ fn parts(ctx: &Ctx) -> Vec<PartSpec> {
         v.push(PartSpec::new("e1-record-vs-snapshot-impatient-waits-pb1", json!({"e1": 1, "impatient": 24})).cpus("0"));
         v.push(PartSpec::new("e1-two-registrants-pb2", json!({"e1": 2, "two": true})).cpus("0"));
         v.push(PartSpec::new("e1-two-snapshotters-pb2", json!({"e1": 2, "snaps": true})).cpus("0"));
+        v.push(PartSpec::new("e1-two-updaters-pb2", json!({"e1": 2, "updaters": true})).cpus("0"));
     } else {
         for f in 0..alphabet().len() {
             v.push(PartSpec::new(&format!("e3-d6-first{}", f), json!({"depth": 6, "first": f})).budget(2400.0));
@@ -652,6 +704,7 @@ fn parts(ctx: &Ctx) -> Vec<PartSpec> {
         v.push(PartSpec::new("e1-record-vs-snapshot-impatient-waits-pb2", json!({"e1": 2, "impatient": 24})).cpus("3").budget(1500.0));
         v.push(PartSpec::new("e1-two-registrants-pb3", json!({"e1": 3, "two": true})).cpus("1").budget(1500.0));
         v.push(PartSpec::new("e1-two-snapshotters-pb3", json!({"e1": 3, "snaps": true})).cpus("2").budget(1500.0));
+        v.push(PartSpec::new("e1-two-updaters-pb3", json!({"e1": 3, "updaters": true})).cpus("4").budget(1500.0));
     }
     v
 }
@@ -668,7 +721,9 @@ fn run(ctx: &Ctx, spec: &PartSpec) -> PartResult {
     } else if spec.arg["local"].as_bool() == Some(true) {
         local_threads(&mut res);
     } else if let Some(pb) = spec.arg["e1"].as_u64() {
-        if spec.arg["snaps"].as_bool() == Some(true) {
+        if spec.arg["updaters"].as_bool() == Some(true) {
+            e1_two_updaters(ctx, &mut res, pb as usize);
+        } else if spec.arg["snaps"].as_bool() == Some(true) {
             e1_two_snapshotters(ctx, &mut res, pb as usize);
         } else if spec.arg["two"].as_bool() == Some(true) {
             e1_two_registrants(ctx, &mut res, pb as usize);
@@ -685,7 +740,7 @@ fn main() {
     driver::main(CheckDef {
         prop: "C19",
         level: "model_checking",
-        rule: "E3: every sequence of depth <= 4 (thorough 6) over {63, 64, 65, 130 records into one histogram, one record, 65 records into another, snapshot} (windows around the 64-slot block size of the bucket); every sequence of the stated depth over 19 operations (describe with two different units / without unit and four texts, register of 4 keys incl. an equal key built differently, absolute counter values below and above the current one, increments through a pair of equal keys whose two labels share a name and are spelled in either order and the same name under three kinds, counter/gauge/histogram updates, snapshot) on a fresh real DebuggingRecorder, plus a final snapshot; every snapshot compared with a reference (first-registration order, described-only metrics absent, latest description, unit kept, histogram values since the previous snapshot); 450 metrics on one recorder with snapshots at doubling sizes (every map grows several times); all pairs of 3-step macro programs on two threads with local recorders; all programs of <= 2 local scopes (closure or guard, left normally or by a caught panic, optionally one nested scope) over two recorders on one thread, each recorder's snapshot listing exactly the emissions made while it was innermost; E1: all SC interleavings of a recording thread with a snapshotting thread; distinct = distinct snapshots; counter.absolute below and above the current value",
+        rule: "E3: every sequence of depth <= 4 (thorough 6) over {63, 64, 65, 130 records into one histogram, one record, 65 records into another, snapshot} (windows around the 64-slot block size of the bucket); every sequence of the stated depth over 19 operations (describe with two different units / without unit and four texts, register of 4 keys incl. an equal key built differently, absolute counter values below and above the current one, increments through a pair of equal keys whose two labels share a name and are spelled in either order and the same name under three kinds, counter/gauge/histogram updates, snapshot) on a fresh real DebuggingRecorder, plus a final snapshot; every snapshot compared with a reference (first-registration order, described-only metrics absent, latest description, unit kept, histogram values since the previous snapshot); 450 metrics on one recorder with snapshots at doubling sizes (every map grows several times); all pairs of 3-step macro programs on two threads with local recorders; all programs of <= 2 local scopes (closure or guard, left normally or by a caught panic, optionally one nested scope) over two recorders on one thread, each recorder's snapshot listing exactly the emissions made while it was innermost; E1: all SC interleavings of a recording thread with a snapshotting thread, of two registrants, of two snapshotters, and of two threads updating one gauge and one counter through their own handles; distinct = distinct snapshots; counter.absolute below and above the current value",
         assumptions: &["E1: sequential consistency, one registry shard"],
         parts,
         run,
